@@ -16,9 +16,9 @@ RULE = ('for each (program, scenario in plain / pause+play / kill / failing / ou
         'there -- complete over that finite set; distinct by (program, scenario, point, occurrence, position); non-trivial when the fault fired')
 ASSUMPTIONS = ['one injected fault per run', 'only the identity of the injected exception is judged; "exception never retrieved" reports for '
                'futures replaced on the EXCEPTED path are diagnostics']
-REQUIRED = ['pp_pause_siblings', 'pp_kill_siblings', 'pp_completed', 'late_callbacks', 'fired', 'class/user', 'class/listener', 'class/pauseplay', 'class/construct', 'class/hook']
+REQUIRED = ['class/outline', 'pp_pause_siblings', 'pp_kill_siblings', 'pp_completed', 'late_callbacks', 'fired', 'class/user', 'class/listener', 'class/pauseplay', 'class/construct', 'class/hook']
 EXHAUSTIVE = {'quick': True, 'thorough': True}
-BOUNDS = {'quick': '4 programs x 5 scenarios, every fault point/occurrence/position', 'thorough': '+ 12 random programs'}
+BOUNDS = {'quick': '4 programs x 5 scenarios + 2 outlines x 3 scripts, every fault point/occurrence/position', 'thorough': '+ 12 random programs'}
 
 HOOKS = ['on_run', 'on_running', 'on_exit_running', 'on_wait', 'on_waiting', 'on_exit_waiting', 'on_finish', 'on_finished', 'on_kill',
          'on_killed', 'on_except', 'on_excepted', 'on_terminated', 'on_close', 'on_output_emitting', 'on_output_emitted']
@@ -148,9 +148,65 @@ def _programs(tier, seed):
     return progs
 
 
+class FaultOutlineMixin:
+    """Outline WorkChain whose step / predicate functions are fault points (one fault point per call)."""
+
+    def _call(self, kind, name):
+        fault_point('outline.%s' % ('step' if kind == 's' else 'predicate'), 'in', self)
+        return super()._call(kind, name)
+
+
+_OUTLINE_CLS = {}
+
+
+def _outline_class(ast_):
+    from pv import outlines
+    key = repr(ast_)
+    if key not in _OUTLINE_CLS:
+        base = outlines.outline_class(ast_)
+        cls = type('Fault' + base.__name__, (FaultOutlineMixin, base), {})
+        generated.register(cls)
+        _OUTLINE_CLS[key] = cls
+    return _OUTLINE_CLS[key]
+
+
+OUTLINES = [
+    [['step', 's0'], ['if', [['p0', [['step', 's1'], ['step', 's2']]], ['p1', [['step', 's3']]]], [['step', 's4']]], ['while', 'p2', [['step', 's5']]], ['step', 's6']],
+    [['while', 'p0', [['if', [['p1', [['step', 's0']]]], None], ['step', 's1']]], ['ret', 3]],
+]
+OUTLINE_SCRIPTS = [([True, False, True, False], []), ([False, True, True, True, False], []), ([False, False, False], [])]
+
+
+def _run_outline(ast_, preds, rets):
+    from pv.driver import BudgetExceeded, Driver
+    global COUNTS
+    COUNTS = {}
+    del FIRED[:]
+    cls = _outline_class(ast_)
+    with Driver(4000) as drv:
+        wc = cls(inputs={'preds': list(preds), 'rets': list(rets)}, loop=drv.loop)
+        task = drv.loop.create_task(wc.step_until_terminated())
+        try:
+            drv.pump()
+        except BudgetExceeded:
+            return None
+        return {'state': wc.state.value, 'exception': wc.exception(), 'future': lifecycle.describe_future(wc.future()), 'closed': wc._closed,
+                'task': lifecycle.Run._task_info(task), 'loop_excs': drv.error_exceptions(), 'trace': list(wc.ctx.get('tr', []))}
+
+
 def gen_cases(tier, seed):
     global FAULT
     cases = []
+    for oi, ast_ in enumerate(OUTLINES):
+        for si, (preds, rets) in enumerate(OUTLINE_SCRIPTS):
+            FAULT = None
+            if _run_outline(ast_, preds, rets) is None:
+                continue
+            for key, n in sorted(dict(COUNTS).items()):
+                point, pos = key.rsplit('/', 1)
+                for occ in range(1, n + 1):
+                    cases.append({'kind': 'outline', 'name': 'outline%d' % oi, 'scenario': 'script%d' % si, 'ast': ast_, 'preds': preds, 'rets': rets,
+                                  'fault': [point, pos, occ]})
     for name, prog in sorted(_programs(tier, seed).items()):
         for scen, plan in sorted(_scenarios(prog).items()):
             base = {'name': name, 'scenario': scen, 'program': prog, 'plan': plan, 'drain': True, 'listener': True}
@@ -199,8 +255,41 @@ def _summary(rec):
             'steps': [[e[2], e[5]] for e in rec['events'] if e[0] == 'trace' and e[1] == 'enter']}
 
 
+def run_outline_case(case):
+    global FAULT
+    V = judges.V
+    FAULT = tuple(case['fault'])
+    try:
+        r = _run_outline(case['ast'], case['preds'], case['rets'])
+    finally:
+        FAULT = None
+    fired = list(FIRED)
+    obs = {'fired': int(bool(fired)), 'class': {'outline': int(bool(fired))}, 'points': {}, 'loop_contexts': 0}
+    if r is None or not fired:
+        return {'viol': [], 'obs': obs, 'inconclusive': 'fault-not-reached', 'key': case, 'nontrivial': False}
+    X = fired[0]
+    where = '%s/%s' % (case['fault'][0], case['fault'][1])
+    obs['points'][where] = 1
+    sig_tail = '%s:%s' % (where, 'outline')
+    viol = []
+    if r['state'] != 'excepted' or r['exception'] is not X:
+        viol.append(V('not-excepted', 'not-excepted:%s:%s' % (r['state'], sig_tail), 'fault in %s of an outline: workchain ended %s with %r' % (where, r['state'], r['exception'])))
+    elif r['future'] != ['exception', lifecycle.describe_exc(X)]:
+        viol.append(V('future-not-raising', 'future-not-raising:' + sig_tail, 'future is %s' % (r['future'],)))
+    if r['task'] != ['done']:
+        viol.append(V('stepping-task', 'stepping-task:%s:%s' % (r['task'][0], sig_tail), 'stepping task ended %s' % (r['task'],)))
+    if not r['closed']:
+        viol.append(V('not-closed', 'not-closed:' + sig_tail, 'workchain not closed'))
+    if any(e is X for e in r['loop_excs']):
+        viol.append(V('escaped-to-loop', 'escaped-to-loop:' + sig_tail, 'injected exception reached the loop exception handler'))
+    return {'viol': viol, 'obs': obs, 'key': [case['name'], case['scenario'], case['fault']], 'nontrivial': True,
+            'sample': {'program': case['name'], 'scenario': case['scenario'], 'fault': case['fault'], 'final': r['state'], 'calls_before_fault': r['trace']}}
+
+
 def run_case(case):
     global FAULT
+    if case.get('kind') == 'outline':
+        return run_outline_case(case)
     V = judges.V
     fault = case.get('fault')
     ref = _reference(case) if fault is not None else None
